@@ -19,11 +19,459 @@ structure NfcClosed (S : Nat → Bool) : Prop where
   come from decomposed syllables -/
   jamo : ∀ c, isJamoLVT c = true → S c = false
 
+namespace NfcAux
+
+/-! ### table look-ups -/
+
+theorem mem_of_lookup {V} (k : Nat) (l : List (Nat × V)) (v : V) (h : l.lookup k = some v) :
+    (k, v) ∈ l := by
+  induction l with
+  | nil => simp at h
+  | cons x r ih =>
+    obtain ⟨a, w⟩ := x
+    rw [List.lookup_cons] at h
+    cases hka : (k == a) with
+    | true =>
+      rw [hka] at h
+      simp only [Option.some.injEq] at h
+      have : k = a := by simpa using hka
+      subst this; subst h
+      exact List.mem_cons_self
+    | false =>
+      rw [hka] at h
+      exact List.mem_cons_of_mem _ (ih h)
+
+/-! ### conjoining jamo ranges -/
+
+def JL (c : Nat) : Prop := 0x1100 ≤ c ∧ c < 0x1113
+def JV (c : Nat) : Prop := 0x1161 ≤ c ∧ c < 0x1176
+def JT (c : Nat) : Prop := 0x11A8 ≤ c ∧ c < 0x11C3
+/-- precomposed syllable without trailing consonant -/
+def SyLV (c : Nat) : Prop := 0xAC00 ≤ c ∧ c < 0xAC00 + 11172 ∧ (c - 0xAC00) % 28 = 0
+
+theorem isJamoLVT_iff (c : Nat) : isJamoLVT c = true ↔ JL c ∨ JV c ∨ JT c := by
+  simp only [isJamoLVT, JL, JV, JT, Bool.or_eq_true, Bool.and_eq_true, decide_eq_true_eq, or_assoc]
+
+theorem isSyllable_iff (c : Nat) : isSyllable c = true ↔ 0xAC00 ≤ c ∧ c < 0xAC00 + 11172 := by
+  simp only [isSyllable, Bool.and_eq_true, decide_eq_true_eq]
+
+theorem jamo_JL {c} (h : JL c) : isJamoLVT c = true := (isJamoLVT_iff c).mpr (.inl h)
+theorem jamo_JV {c} (h : JV c) : isJamoLVT c = true := (isJamoLVT_iff c).mpr (.inr (.inl h))
+theorem jamo_JT {c} (h : JT c) : isJamoLVT c = true := (isJamoLVT_iff c).mpr (.inr (.inr h))
+
+/-- the facts about the tables that the proof uses (consequences of `normTablesOk`) -/
+structure TabOk : Prop where
+  cccJ : ∀ e ∈ cccTabL, isJamoLVT e.1 = false
+  compJ : ∀ e ∈ compTabL, isJamoLVT (e.1 % 2097152) = false
+
+theorem tabOk_of (hn : normTablesOk = true) : TabOk := by
+  simp only [normTablesOk, Bool.and_eq_true, List.all_eq_true, Bool.not_eq_true',
+    decide_eq_true_eq] at hn
+  obtain ⟨⟨⟨hc, hp⟩, _⟩, _⟩ := hn
+  exact ⟨fun e he => (hc e he).1.1, fun e he => (hp e he).1.1.1.2⟩
+
+theorem ccc_jamo (ht : TabOk) (h3 : sortedKeys cccTabL = true) (c : Nat)
+    (hj : isJamoLVT c = true) : ccc c = 0 := by
+  unfold ccc
+  rw [kvFind_eq_lookup cccTab c h3]
+  cases hl : cccTab.toList.lookup c with
+  | none => rfl
+  | some v =>
+    have := ht.cccJ _ (mem_of_lookup _ _ _ hl)
+    simp only at this
+    rw [hj] at this
+    cases this
+
+/-! ### Hangul arithmetic -/
+
+theorem composeHangul_syll (a b r : Nat) (h : composeHangul a b = some r) : isSyllable r = true := by
+  rw [isSyllable_iff]
+  unfold composeHangul at h
+  simp only [Bool.and_eq_true, decide_eq_true_eq] at h
+  unfold sBase lBase vBase tBase lCount vCount tCount nCount sCount at h
+  split at h
+  · injection h with h; omega
+  · split at h
+    · injection h with h; omega
+    · cases h
+
+theorem composeHangul_lv (l v : Nat) (hl : JL l) (hv : JV v) :
+    ∃ r, composeHangul l v = some r ∧ SyLV r := by
+  unfold JL at hl; unfold JV at hv
+  refine ⟨0xAC00 + (l - 0x1100) * 588 + (v - 0x1161) * 28, ?_, ?_⟩
+  · unfold composeHangul
+    simp only [Bool.and_eq_true, decide_eq_true_eq]
+    unfold sBase lBase vBase tBase lCount vCount tCount nCount sCount
+    rw [if_pos (by omega)]
+  · unfold SyLV; omega
+
+theorem composeHangul_lvt (s t : Nat) (hs : SyLV s) (ht : JT t) :
+    ∃ r, composeHangul s t = some r := by
+  unfold SyLV at hs; unfold JT at ht
+  refine ⟨s + (t - 0x11A7), ?_⟩
+  unfold composeHangul
+  simp only [Bool.and_eq_true, decide_eq_true_eq]
+  unfold sBase lBase vBase tBase lCount vCount tCount nCount sCount
+  rw [if_neg (by omega), if_pos (by omega)]
+
+theorem composeHangul_none_L (s l : Nat) (hl : JL l) : composeHangul s l = none := by
+  unfold JL at hl
+  unfold composeHangul
+  simp only [Bool.and_eq_true, decide_eq_true_eq]
+  unfold sBase lBase vBase tBase lCount vCount tCount nCount sCount
+  rw [if_neg (by omega), if_neg (by omega)]
+
+theorem composePair_def (a b : Nat) : composePair a b =
+    match composeHangul a b with
+    | some c => some c
+    | none => kvFind compTab (a * 2097152 + b) := rfl
+
+theorem composePair_of_hangul (a b r : Nat) (h : composeHangul a b = some r) :
+    composePair a b = some r := by
+  rw [composePair_def, h]
+
+theorem composePair_none_L (ht : TabOk) (h2 : sortedKeys compTabL = true) (s l : Nat) (hl : JL l) :
+    composePair s l = none := by
+  rw [composePair_def, composeHangul_none_L s l hl]
+  simp only
+  rw [kvFind_eq_lookup compTab _ h2]
+  cases hk : compTab.toList.lookup (s * 2097152 + l) with
+  | none => rfl
+  | some v =>
+    have := ht.compJ _ (mem_of_lookup _ _ _ hk)
+    simp only at this
+    have hm : (s * 2097152 + l) % 2097152 = l := by unfold JL at hl; omega
+    rw [hm, jamo_JL hl] at this
+    cases this
+
+section
+variable (S : Nat → Bool) (h : NfcClosed S) (hb : ∀ c, S c = true → c < 0x110000)
+include h hb
+
+theorem composePair_S (h2 : sortedKeys compTabL = true) (a b r : Nat) (ha : S a = true)
+    (hbS : S b = true) (hr : composePair a b = some r) : S r = true := by
+  rw [composePair_def] at hr
+  cases hc : composeHangul a b with
+  | some c =>
+    rw [hc] at hr
+    simp only [Option.some.injEq] at hr
+    subst hr
+    exact h.syll _ (composeHangul_syll a b c hc)
+  | none =>
+    rw [hc] at hr
+    simp only at hr
+    rw [kvFind_eq_lookup compTab _ h2] at hr
+    have hm := mem_of_lookup _ _ _ hr
+    have hlt := hb b hbS
+    have := h.comp _ hm
+    simp only at this
+    have e1 : (a * 2097152 + b) / 2097152 = a := by omega
+    have e2 : (a * 2097152 + b) % 2097152 = b := by omega
+    rw [e1, e2] at this
+    exact this ha hbS
+
+end
+
+/-! ### block structure of a decomposed string -/
+
+inductive Blocks (S : Nat → Bool) : List Nat → Prop where
+  | nil : Blocks S []
+  | single (x : Nat) (r : List Nat) : S x = true → Blocks S r → Blocks S (x :: r)
+  | lv (l v : Nat) (r : List Nat) : JL l → JV v → Blocks S r → Blocks S (l :: v :: r)
+  | lvt (l v t : Nat) (r : List Nat) : JL l → JV v → JT t → Blocks S r → Blocks S (l :: v :: t :: r)
+
+theorem blocks_of_all (S : Nat → Bool) (l : List Nat) (hl : ∀ x ∈ l, S x = true) : Blocks S l := by
+  induction l with
+  | nil => exact .nil
+  | cons x r ih =>
+    exact .single x r (hl x List.mem_cons_self) (ih fun y hy => hl y (List.mem_cons_of_mem _ hy))
+
+theorem blocks_append (S : Nat → Bool) (a b : List Nat) (ha : Blocks S a) (hb : Blocks S b) :
+    Blocks S (a ++ b) := by
+  induction ha with
+  | nil => exact hb
+  | single x r hx _ ih => exact .single x _ hx ih
+  | lv l v r hl hv _ ih => exact .lv l v _ hl hv ih
+  | lvt l v t r hl hv ht _ ih => exact .lvt l v t _ hl hv ht ih
+
+theorem hangulDecomp_blocks (S : Nat → Bool) (c : Nat) (hc : isHangulSyllable c = true) :
+    Blocks S (hangulDecomp c) := by
+  simp only [isHangulSyllable, Bool.and_eq_true, decide_eq_true_eq] at hc
+  unfold sBase sCount at hc
+  unfold hangulDecomp
+  simp only []
+  unfold sBase lBase vBase tBase nCount tCount
+  split
+  · refine .lv _ _ _ ?_ ?_ .nil
+    · unfold JL; omega
+    · unfold JV; omega
+  · refine .lvt _ _ _ _ ?_ ?_ ?_ .nil
+    · unfold JL; omega
+    · unfold JV; omega
+    · unfold JT; omega
+
+theorem decompChar_blocks (S : Nat → Bool) (h : NfcClosed S) (h1 : sortedKeys canonTabL = true)
+    (c : Nat) (hc : S c = true) : Blocks S (decompChar false c) := by
+  unfold decompChar
+  simp only [Bool.false_eq_true, if_false]
+  split
+  · rename_i hs; exact hangulDecomp_blocks S c hs
+  · rw [kvFind_eq_lookup canonTab c h1]
+    cases hl : canonTab.toList.lookup c with
+    | none => exact .single c [] hc .nil
+    | some d =>
+      have := h.decomp _ (mem_of_lookup _ _ _ hl) hc
+      exact blocks_of_all S d this
+
+theorem flatMap_blocks (S : Nat → Bool) (h : NfcClosed S) (h1 : sortedKeys canonTabL = true)
+    (s : List Nat) (hs : ∀ c ∈ s, S c = true) : Blocks S (s.flatMap (decompChar false)) := by
+  induction s with
+  | nil => exact .nil
+  | cons c r ih =>
+    rw [List.flatMap_cons]
+    exact blocks_append S _ _ (decompChar_blocks S h h1 c (hs c List.mem_cons_self))
+      (ih fun y hy => hs y (List.mem_cons_of_mem _ hy))
+
+/-! ### canonical reordering -/
+
+theorem mem_insertMark (c k : Nat) (run : List (Nat × Nat)) (p : Nat × Nat)
+    (hp : p ∈ insertMark c k run) : p = (c, k) ∨ p ∈ run := by
+  induction run with
+  | nil => simp only [insertMark, List.mem_singleton] at hp; exact .inl hp
+  | cons q r ih =>
+    obtain ⟨d, j⟩ := q
+    simp only [insertMark] at hp
+    split at hp
+    · rcases List.mem_cons.mp hp with rfl | hp
+      · exact .inr List.mem_cons_self
+      · rcases ih hp with h | h
+        · exact .inl h
+        · exact .inr (List.mem_cons_of_mem _ h)
+    · rcases List.mem_cons.mp hp with rfl | hp
+      · exact .inl rfl
+      · exact .inr hp
+
+theorem reorder_nil (run : List (Nat × Nat)) : reorder [] run = run.map (·.1) := rfl
+theorem reorder_cons (c : Nat) (r : List Nat) (run : List (Nat × Nat)) : reorder (c :: r) run =
+    if ccc c = 0 then run.map (·.1) ++ c :: reorder r [] else reorder r (insertMark c (ccc c) run) :=
+  rfl
+
+theorem reorder_starter (c : Nat) (r : List Nat) (run : List (Nat × Nat)) (hc : ccc c = 0) :
+    reorder (c :: r) run = run.map (·.1) ++ c :: reorder r [] := by
+  rw [reorder_cons, if_pos hc]
+
+theorem blocks_run (S : Nat → Bool) (run : List (Nat × Nat)) (hrun : ∀ p ∈ run, S p.1 = true) :
+    Blocks S (run.map (·.1)) := by
+  apply blocks_of_all
+  intro x hx
+  obtain ⟨p, hp, rfl⟩ := List.mem_map.mp hx
+  exact hrun p hp
+
+theorem blocks_reorder (S : Nat → Bool) (hccc : ∀ c, isJamoLVT c = true → ccc c = 0)
+    (d : List Nat) (hd : Blocks S d) :
+    ∀ run : List (Nat × Nat), (∀ p ∈ run, S p.1 = true) → Blocks S (reorder d run) := by
+  induction hd with
+  | nil => intro run hrun; rw [reorder_nil]; exact blocks_run S run hrun
+  | single x r hx _ ih =>
+    intro run hrun
+    rw [reorder_cons]
+    split
+    · exact blocks_append S _ _ (blocks_run S run hrun) (.single x _ hx (ih [] (by simp)))
+    · apply ih
+      intro p hp
+      rcases mem_insertMark _ _ _ _ hp with rfl | hp
+      · exact hx
+      · exact hrun p hp
+  | lv l v r hl hv _ ih =>
+    intro run hrun
+    rw [reorder_starter _ _ _ (hccc l (jamo_JL hl)), reorder_starter _ _ _ (hccc v (jamo_JV hv))]
+    exact blocks_append S _ _ (blocks_run S run hrun) (.lv l v _ hl hv (ih [] (by simp)))
+  | lvt l v t r hl hv ht _ ih =>
+    intro run hrun
+    rw [reorder_starter _ _ _ (hccc l (jamo_JL hl)), reorder_starter _ _ _ (hccc v (jamo_JV hv)),
+      reorder_starter _ _ _ (hccc t (jamo_JT ht))]
+    exact blocks_append S _ _ (blocks_run S run hrun) (.lvt l v t _ hl hv ht (ih [] (by simp)))
+
+/-! ### recomposition -/
+
+def Inv (S : Nat → Bool) (st : Recomp) : Prop :=
+  (∀ x ∈ st.out, S x = true) ∧ (∀ x, st.composee = some x → S x = true) ∧
+  (∀ x ∈ st.buffer, S x = true) ∧ (st.composee = none → st.lastCcc = none)
+
+theorem recompStep_def (st : Recomp) (ch : Nat) : recompStep st ch =
+  match st.composee with
+  | none => if ccc ch != 0 then { st with out := st.out ++ [ch] } else { st with composee := some ch }
+  | some s =>
+    match st.lastCcc with
+    | none =>
+      match composePair s ch with
+      | some r => { st with composee := some r }
+      | none =>
+        if ccc ch == 0 then { st with out := st.out ++ [s], composee := some ch }
+        else { st with buffer := st.buffer ++ [ch], lastCcc := some (ccc ch) }
+    | some l =>
+      if l ≥ ccc ch then
+        if ccc ch == 0 then
+          { out := st.out ++ [s] ++ st.buffer, composee := some ch, buffer := [], lastCcc := none }
+        else { st with buffer := st.buffer ++ [ch], lastCcc := some (ccc ch) }
+      else
+        match composePair s ch with
+        | some r => { st with composee := some r }
+        | none => { st with buffer := st.buffer ++ [ch], lastCcc := some (ccc ch) } := rfl
+
+theorem mem_snoc_S (S : Nat → Bool) (l : List Nat) (x : Nat) (hl : ∀ y ∈ l, S y = true)
+    (hx : S x = true) : ∀ y ∈ l ++ [x], S y = true := by
+  intro y hy
+  rcases List.mem_append.mp hy with hy | hy
+  · exact hl y hy
+  · rw [List.mem_singleton.mp hy]; exact hx
+
+theorem mem_app_S (S : Nat → Bool) (l m : List Nat) (hl : ∀ y ∈ l, S y = true)
+    (hm : ∀ y ∈ m, S y = true) : ∀ y ∈ l ++ m, S y = true := by
+  intro y hy
+  rcases List.mem_append.mp hy with hy | hy
+  · exact hl y hy
+  · exact hm y hy
+
+theorem inv_single (S : Nat → Bool)
+    (hcp : ∀ a b r, S a = true → S b = true → composePair a b = some r → S r = true)
+    (st : Recomp) (hi : Inv S st) (x : Nat) (hx : S x = true) : Inv S (recompStep st x) := by
+  obtain ⟨out, composee, buffer, lastCcc⟩ := st
+  obtain ⟨h1, h2, h3, h4⟩ := hi
+  simp only at h1 h2 h3 h4
+  rw [recompStep_def]
+  cases composee with
+  | none =>
+    simp only
+    split
+    · exact ⟨mem_snoc_S S _ _ h1 hx, h2, h3, h4⟩
+    · refine ⟨h1, ?_, h3, ?_⟩
+      · intro y hy; simp only [Option.some.injEq] at hy; rw [← hy]; exact hx
+      · intro hy; cases hy
+  | some s =>
+    have hs : S s = true := h2 s rfl
+    have hsome : ∀ r, S r = true → ∀ y, some r = some y → S y = true := by
+      intro r hr y hy; simp only [Option.some.injEq] at hy; rw [← hy]; exact hr
+    have hne : ∀ (r : Nat) (o : Option Nat), some r = none → o = none := by
+      intro r o hy; cases hy
+    cases lastCcc with
+    | none =>
+      simp only
+      cases hc : composePair s x with
+      | some r =>
+        simp only
+        exact ⟨h1, hsome r (hcp s x r hs hx hc), h3, hne _ _⟩
+      | none =>
+        simp only
+        split
+        · exact ⟨mem_snoc_S S _ _ h1 hs, hsome x hx, h3, hne _ _⟩
+        · exact ⟨h1, hsome s hs, mem_snoc_S S _ _ h3 hx, hne _ _⟩
+    | some l =>
+      simp only
+      split
+      · split
+        · exact ⟨mem_app_S S _ _ (mem_snoc_S S _ _ h1 hs) h3, hsome x hx, by simp, hne _ _⟩
+        · exact ⟨h1, hsome s hs, mem_snoc_S S _ _ h3 hx, hne _ _⟩
+      · cases hc : composePair s x with
+        | some r =>
+          simp only
+          exact ⟨h1, hsome r (hcp s x r hs hx hc), h3, hne _ _⟩
+        | none =>
+          simp only
+          exact ⟨h1, hsome s hs, mem_snoc_S S _ _ h3 hx, hne _ _⟩
+
+theorem step_L (S : Nat → Bool) (st : Recomp) (hi : Inv S st) (l : Nat) (hk : ccc l = 0)
+    (hcp : ∀ s, composePair s l = none) :
+    ∃ out buffer, recompStep st l = ⟨out, some l, buffer, none⟩ ∧ (∀ y ∈ out, S y = true) ∧
+      (∀ y ∈ buffer, S y = true) := by
+  obtain ⟨out, composee, buffer, lastCcc⟩ := st
+  obtain ⟨h1, h2, h3, h4⟩ := hi
+  simp only at h1 h2 h3 h4
+  rw [recompStep_def, hk]
+  cases composee with
+  | none =>
+    have := h4 rfl
+    subst this
+    exact ⟨out, buffer, rfl, h1, h3⟩
+  | some s =>
+    have hs : S s = true := h2 s rfl
+    cases lastCcc with
+    | none =>
+      simp only [hcp s]
+      exact ⟨_, _, rfl, mem_snoc_S S _ _ h1 hs, h3⟩
+    | some k =>
+      simp only
+      exact ⟨_, _, rfl, mem_app_S S _ _ (mem_snoc_S S _ _ h1 hs) h3, by simp⟩
+
+theorem step_compose (out buffer : List Nat) (a b r : Nat) (hc : composePair a b = some r) :
+    recompStep ⟨out, some a, buffer, none⟩ b = ⟨out, some r, buffer, none⟩ := by
+  rw [recompStep_def]
+  simp only [hc]
+
+theorem inv_fold (S : Nat → Bool) (h : NfcClosed S)
+    (hcp : ∀ a b r, S a = true → S b = true → composePair a b = some r → S r = true)
+    (hccc : ∀ c, isJamoLVT c = true → ccc c = 0)
+    (hnl : ∀ s l, JL l → composePair s l = none)
+    (d : List Nat) (hd : Blocks S d) :
+    ∀ st, Inv S st → Inv S (d.foldl recompStep st) := by
+  induction hd with
+  | nil => intro st hi; exact hi
+  | single x r hx _ ih =>
+    intro st hi
+    rw [List.foldl_cons]
+    exact ih _ (inv_single S hcp st hi x hx)
+  | lv l v r hl hv _ ih =>
+    intro st hi
+    obtain ⟨out, buffer, e1, ho, hbf⟩ := step_L S st hi l (hccc l (jamo_JL hl)) (fun s => hnl s l hl)
+    obtain ⟨lv, e2, hlv⟩ := composeHangul_lv l v hl hv
+    rw [List.foldl_cons, List.foldl_cons, e1, step_compose _ _ _ _ _ (composePair_of_hangul _ _ _ e2)]
+    apply ih
+    refine ⟨ho, ?_, hbf, ?_⟩
+    · intro y hy
+      simp only [Option.some.injEq] at hy
+      rw [← hy]
+      exact h.syll _ (composeHangul_syll _ _ _ e2)
+    · intro hy; cases hy
+  | lvt l v t r hl hv ht _ ih =>
+    intro st hi
+    obtain ⟨out, buffer, e1, ho, hbf⟩ := step_L S st hi l (hccc l (jamo_JL hl)) (fun s => hnl s l hl)
+    obtain ⟨lv, e2, hlv⟩ := composeHangul_lv l v hl hv
+    obtain ⟨lvt, e3⟩ := composeHangul_lvt lv t hlv ht
+    rw [List.foldl_cons, List.foldl_cons, List.foldl_cons, e1,
+      step_compose _ _ _ _ _ (composePair_of_hangul _ _ _ e2),
+      step_compose _ _ _ _ _ (composePair_of_hangul _ _ _ e3)]
+    apply ih
+    refine ⟨ho, ?_, hbf, ?_⟩
+    · intro y hy
+      simp only [Option.some.injEq] at hy
+      rw [← hy]
+      exact h.syll _ (composeHangul_syll _ _ _ e3)
+    · intro hy; cases hy
+
+end NfcAux
+
+open NfcAux in
 /-- NFC maps strings over `S` to strings over `S`.  `hn`, `h1`–`h3` are the kernel-checked table facts
-`Facts.norm_tables_ok`, `Facts.canon_sorted`, `Facts.comp_sorted`, `Facts.ccc_sorted`. -/
+`Facts.norm_tables_ok`, `Facts.canon_sorted`, `Facts.comp_sorted`, `Facts.ccc_sorted`; `hb`: the
+members of `S` are code points (without it a value `≥ 2^21` would alias another pair in the packed
+key `a * 2^21 + b` of the composition table). -/
 theorem nfc_closed (S : Nat → Bool) (h : NfcClosed S) (hn : normTablesOk = true)
     (h1 : sortedKeys canonTabL = true) (h2 : sortedKeys compTabL = true) (h3 : sortedKeys cccTabL = true)
+    (hb : ∀ c, S c = true → c < 0x110000)
     (s : List Nat) (hs : ∀ c ∈ s, S c = true) : ∀ c ∈ nfc s, S c = true := by
-  sorry
+  have ht := tabOk_of hn
+  have hccc := ccc_jamo ht h3
+  have hd : Blocks S (decompose false s) :=
+    blocks_reorder S hccc _ (flatMap_blocks S h h1 s hs) [] (by simp)
+  have hinv := inv_fold S h (composePair_S S h hb h2) hccc (composePair_none_L ht h2) _ hd {}
+    ⟨by simp, by simp, by simp, by simp⟩
+  obtain ⟨i1, i2, i3, _⟩ := hinv
+  intro c hc
+  unfold nfc recompose at hc
+  simp only [List.mem_append, Option.mem_toList] at hc
+  rcases hc with (hc | hc) | hc
+  · exact i1 c hc
+  · exact i2 c hc
+  · exact i3 c hc
 
 end Precis
